@@ -34,7 +34,9 @@ RULE = ("cases = (format, bytes) for the five formats newick | multi (multi-Newi
         "last position at any depth incl. the root, every order of up to two (thorough three) of {length, support, name, comment, "
         "second comment} after the outermost ')' x eight empty-child bodies, all orders of three after an empty last child, "
         "reordered/repeated suffixes after inner ')', double colons, comments in odd places, missing ';', trailing garbage, "
-        "unbalanced parentheses at the end; text after the outermost ')' (kind anomaly:reopened: one or two extra ')' and then a "
+        "unbalanced parentheses at the end; trees written over several lines with LF / CRLF right after labels and numbers (single "
+        "reader = parser on the first ';'-terminated text, fix 6227553); Nexus blocks closed with ENDBLOCK; in any case and "
+        "look-alikes (kind nexus-endblock:*), several TREES blocks (nexus-blocks:*); text after the outermost ')' (kind anomaly:reopened: one or two extra ')' and then a "
         "new closed or unclosed group, the defect fixed by bd702f3); every delivered tree is then used: Nodes, Edges, Tips, Newick, "
         "PreOrder, PostOrder, the id-indexed NodeRootDistance, LTT, CutEdgesMaxLength, SortedTips, ReinitIndexes, and for trees of at "
         "most 200 nodes ToDistanceMatrix and Quartets (observed, not judged: Quartets ends the whole process through "
@@ -138,6 +140,12 @@ def gen_newick(rng):
         s = "[&R] " + s
     elif r < 0.3:
         s = s + "\n" + nwk(rng, rand_tree(rng))
+    elif r < 0.42:
+        # a tree written over several lines with the line break (LF / CRLF) right AFTER labels and numbers, i.e. before
+        # ',' ')' ':' (fix 6227553: the single-tree reader joins the lines as the multi-tree reader does)
+        e = rng.choice(["\n", "\n", "\r\n"])
+        p = rng.choice([0.15, 0.4, 1.0])
+        s = "".join((e if ch in ",):" and rng.random() < p else "") + ch for ch in s)
     return s
 
 def gen_multi_big(rng):
@@ -160,7 +168,10 @@ def gen_multi(rng):
     eol = "\r\n" if style == "crlf" else "\n"
     out = []
     for i, t in enumerate(trees):
-        if style == "split" and rng.random() < 0.7:
+        if style == "split" and rng.random() < 0.3:
+            e = rng.choice(["\n", "\r\n"])
+            t = "".join((e if ch in ",):" and rng.random() < 0.4 else "") + ch for ch in t)
+        elif style == "split" and rng.random() < 0.7:
             t = "".join(ch + ("\n" if ch == "," and rng.random() < 0.4 else "") for ch in t)
         if style == "trail":
             t += rng.choice([" ", "\t", "  \t ", ""])
@@ -824,6 +835,19 @@ def nexus_blocks_cases(rng, tier):
     out.append(case("nexus", "#NEXUS\n" + block([("t0", plain[0])], None) + block([("t1", "(a,b;")], None), "nexus-blocks:broken-last"))
     out.append(case("nexus", "#NEXUS\n" + block([("t0", "(a,b;")], None) + block([("t1", plain[0])], None), "nexus-blocks:broken-first"))
     out.append(case("nexus", "#NEXUS BEGIN TREES;TREE a=(a,b);END;BEGIN TREES;END;", "nexus-blocks:minimal"))
+    # ENDBLOCK; is the other spelling of END; (fix d0ed28a): unsupported blocks closed with it before / between / after TREES
+    # blocks, TREES / TAXA / DATA blocks closed with it, in any letter case, and words that only begin like it
+    tb = lambda name, t, e: "BEGIN TREES;\n TREE %s = %s\n%s\n" % (name, t, e)
+    for e1 in ["END;", "ENDBLOCK;", "EndBlock;", "endblock ;", "ENDBLOCK", "ENDBLOCKS;", "END BLOCK;", "ENDBLOC;"]:
+        for e2 in ["END;", "ENDBLOCK;"]:
+            foo = "BEGIN FOO;\n x y;\n [c] z;\n%s\n" % e1
+            out.append(case("nexus", "#NEXUS\n" + foo + tb("t0", plain[0], e2), "nexus-endblock:unsupported-before"))
+            out.append(case("nexus", "#NEXUS\n" + tb("t0", plain[0], e2) + foo + tb("t1", plain[1], e2), "nexus-endblock:unsupported-between"))
+            out.append(case("nexus", "#NEXUS\n" + tb("t0", plain[0], e2) + foo, "nexus-endblock:unsupported-after"))
+            out.append(case("nexus", "#NEXUS\n" + tb("t0", plain[0], e1) + tb("t1", plain[1], e2), "nexus-endblock:trees"))
+            out.append(case("nexus", "#NEXUS\n" + taxa.replace("END;", e1) + tb("t0", plain[0], e2), "nexus-endblock:taxa"))
+            out.append(case("nexus", "#NEXUS\nBEGIN DATA;\n DIMENSIONS NTAX=2 NCHAR=2;\n FORMAT DATATYPE=DNA;\n MATRIX\n a AC\n b AC\n ;\n%s\n" % e1
+                            + tb("t0", "(a,b);", e2), "nexus-endblock:data"))
     return out
 
 FIXED = [
@@ -852,6 +876,8 @@ FIXED = [
     ("nexus", "#NEXUS\nBEGIN DATA;\nMATRIX\na AC\nb A\n;\nEND;"), ("nexus", "#NEXUS\nBEGIN DATA;\nMATRIX\na AC\na GT\nb ACGT\n;\nEND;"),
     ("nexus", "#NEXUS\nBEGIN DATA;\nMATRIX\n1 AC\n;\nEND;"), ("nexus", "#NEXUS\nBEGIN DATA;\nMATRIX\na 01\n;\nEND;"), ("nexus", "#NEXUS\nBEGIN DATA;\nFORMAT DATATYPE=standard;\nMATRIX\na AC\n;\nEND;"),
     ("nexus", "#NEXUS\nBEGIN TAXA;\nTAXLABELS a;\nEND;\nBEGIN DATA;\nMATRIX\na AC\nb AC\n;\nEND;"),
+    ("newick", "((a,b)x\n,c);"), ("newick", "((a,b)0.9\n,c);"), ("newick", "(a:1\n,b);"), ("newick", "((a:0.1,b:0.2\n):0.3,c:1);"), ("newick", "((a,b)x\r\n,c);"),
+    ("newick", "(a,b);x"), ("newick", "(a,b)\n"), ("newick", "(a,b);\n(c,d)"), ("newick", "\n\n(a,\nb)\n;\n"), ("newick", " \n"), ("newick", "(a,b) ; \n(c,d);"),
     ("newick", ""), ("newick", ";"), ("newick", "("), ("newick", "()"), ("newick", "();"), ("newick", "(a);"), ("newick", "(,);"), ("newick", "((),());"),
     ("newick", "(a,b);x"), ("newick", "(a,b)"), ("newick", "[(a,b);"), ("newick", "(a,b)[;"), ("newick", "(a:,b);"), ("newick", "(a,b):1;"), ("newick", "a;"),
     ("newick", "(a,b));"), ("newick", "((a,b);"), ("newick", "(a,b)1/2;"), ("newick", "((a,b)1/2/3,c);"), ("newick", "((a,b)[x]:1[y],c);"),
